@@ -23,6 +23,9 @@ pub struct QCfg {
     pub event_idx: bool,
     pub ap: bool,
     pub legacy: bool,
+    /// k > 0: the platform maps the k-th shared buffer at device address 0
+    #[serde(default)]
+    pub zero_share: u8,
 }
 
 #[derive(Clone, Debug, Serialize, Deserialize, PartialEq, Eq)]
@@ -71,6 +74,10 @@ pub struct QCase {
     pub cfg: QCfg,
     pub ops: Vec<Op>,
     pub long: Option<Long>,
+    /// last step: submit one buffer of 2^32 + 512 bytes (1: device-readable, 2: device-writable),
+    /// whose length no descriptor can express
+    #[serde(default)]
+    pub huge: u8,
 }
 
 /// A violation tagged with the property whose oracle found it.
@@ -276,6 +283,7 @@ pub struct Flags {
     pub c05_event_windows: u32,
     pub followed_capacity_deviation: bool,
     pub heap_failures: u32,
+    pub huge_buffer: bool,
 }
 
 pub struct Eng {
@@ -325,6 +333,9 @@ impl Eng {
             w.dev.log_events = false;
             if cfg.legacy {
                 w.hal.next_dma = 0x0000_0000_4000_0000;
+            }
+            if cfg.zero_share > 0 {
+                w.hal.zero_share_at = Some(cfg.zero_share as u64);
             }
         });
         let mut t = MTransport::new();
@@ -394,6 +405,7 @@ impl Eng {
                 c05_event_windows: 0,
                 followed_capacity_deviation: false,
                 heap_failures: 0,
+                huge_buffer: false,
                 max_out: 0,
                 c05_checks: 0,
             },
@@ -770,6 +782,54 @@ impl Eng {
             }
             Err(vi) => Err(vi),
         }
+    }
+
+    /// One buffer of 2^32 + 512 bytes: a descriptor's 32-bit length cannot describe it, so the
+    /// only correct outcomes are an error or a panic; a successful submission necessarily
+    /// publishes a chain that does not give the caller's buffer length.
+    pub fn add_huge(&mut self, writable: bool) -> R {
+        const LEN: usize = (1usize << 32) + 512;
+        with(|w| w.hal.bounce = false);
+        let layout = std::alloc::Layout::from_size_align(LEN, 4096).unwrap();
+        // lazily zeroed: never touched
+        let p = unsafe { std::alloc::alloc_zeroed(layout) };
+        if p.is_null() {
+            return Ok(());
+        }
+        let r = {
+            let q = self.q.as_mut().unwrap();
+            let sl: &mut [u8] = unsafe { std::slice::from_raw_parts_mut(p, LEN) };
+            guard(|| unsafe {
+                if writable {
+                    q.add(&[], &mut [sl])
+                } else {
+                    q.add(&[&*sl], &mut [])
+                }
+            })
+        };
+        let out = match r {
+            Caught::Ok(Ok(token)) => {
+                let seen = with(|w| self.rq.read_chain(&w.hal, token)).map(|c| c.elems.iter().map(|e| e.len as u64).collect::<Vec<_>>());
+                Err(v("C01", format!("a buffer of {} bytes was accepted; the published chain gives lengths {:?}", LEN, seen)))
+            }
+            _ => Ok(()),
+        };
+        // quiesce before the memory goes away
+        let q = self.q.take();
+        let t = self.t.take();
+        let _ = guard(move || {
+            let mut t = t;
+            if let Some(t) = t.as_mut() {
+                use virtio_drivers::transport::Transport;
+                t.queue_unset(0);
+            }
+            drop(q);
+            drop(t);
+        });
+        unsafe { std::alloc::dealloc(p, layout) };
+        let _ = world::take_faults();
+        self.flags.huge_buffer = true;
+        out
     }
 
     /// Device fetches everything available.
@@ -1347,6 +1407,10 @@ pub fn run_case(c: &QCase, prop: &'static str, st: &mut Stats) -> Result<(), Str
         if let Some(l) = &c.long {
             e.long_run(l)?;
         }
+        if c.huge != 0 {
+            // (the submission may legitimately end in a panic half-way: nothing is judged afterwards)
+            return e.add_huge(c.huge == 2);
+        }
         e.finish()?;
         Ok(())
     })();
@@ -1392,6 +1456,9 @@ pub fn run_case(c: &QCase, prop: &'static str, st: &mut Stats) -> Result<(), Str
             if f.indirect_chain {
                 st.class("indirect_chain");
             }
+            if f.huge_buffer {
+                st.class("buffer_longer_than_u32");
+            }
             if f.heap_failures > 0 {
                 st.class_n("submissions_under_heap_exhaustion", f.heap_failures as u64);
             }
@@ -1408,6 +1475,9 @@ pub fn run_case(c: &QCase, prop: &'static str, st: &mut Stats) -> Result<(), Str
                 st.class("queue_size_ge_256");
             }
             let mut cs = Sig::new();
+            if c.cfg.zero_share > 0 {
+                st.class("a_buffer_mapped_at_device_address_0");
+            }
             cs.add(c.cfg.log2 as u64).add(c.cfg.indirect as u64).add(c.cfg.event_idx as u64).add(c.cfg.ap as u64).add(c.cfg.legacy as u64);
             cs.add(e.trace_sig.get());
             let sample = || json!({"cfg": c.cfg, "ops": c.ops.iter().take(40).collect::<Vec<_>>(), "n_ops": c.ops.len(), "long": c.long});
@@ -1477,7 +1547,7 @@ pub fn cfg_strategy(max_log2: u8) -> impl Strategy<Value = QCfg> {
         any::<bool>(),
         prop::bool::weighted(0.3),
     )
-        .prop_map(move |(log2, indirect, event_idx, ap, legacy)| QCfg { log2: log2.min(max_log2), indirect, event_idx, ap, legacy })
+        .prop_map(move |(log2, indirect, event_idx, ap, legacy)| QCfg { log2: log2.min(max_log2), indirect, event_idx, ap, legacy, zero_share: if log2 % 5 == 0 && ap != legacy { 1 + (log2 / 5) * 2 + indirect as u8 } else { 0 } })
 }
 
 fn len_strategy() -> impl Strategy<Value = u32> {
@@ -1567,7 +1637,17 @@ pub fn boundary_cases(sizes: &[u8]) -> Vec<QCase> {
                     ops.push(Op::CompleteAll { rot: 1 });
                     ops.push(Op::PopAll);
                 }
-                out.push(QCase { cfg: QCfg { log2, indirect, event_idx, ap: log2 % 2 == 1, legacy: log2 % 3 == 1 }, ops, long: None });
+                out.push(QCase { cfg: QCfg { log2, indirect, event_idx, ap: log2 % 2 == 1, legacy: log2 % 3 == 1, zero_share: 0 }, ops, long: None, huge: 0 });
+                if log2 <= 2 && !event_idx {
+                    for huge in [1u8, 2] {
+                        out.push(QCase {
+                            cfg: QCfg { log2, indirect, event_idx, ap: false, legacy: false, zero_share: 0 },
+                            ops: vec![Op::Add { ins: vec![3], outs: vec![2] }, Op::CompleteAll { rot: 0 }, Op::PopAll],
+                            long: None,
+                            huge,
+                        });
+                    }
+                }
             }
         }
     }
@@ -1575,7 +1655,7 @@ pub fn boundary_cases(sizes: &[u8]) -> Vec<QCase> {
 }
 
 pub fn case_strategy(max_ops: usize, max_log2: u8) -> impl Strategy<Value = QCase> {
-    (cfg_strategy(max_log2), prop::collection::vec(op_strategy(), 0..=max_ops)).prop_map(|(cfg, ops)| QCase { cfg, ops, long: None })
+    (cfg_strategy(max_log2), prop::collection::vec(op_strategy(), 0..=max_ops)).prop_map(|(cfg, ops)| QCase { cfg, ops, long: None, huge: 0 })
 }
 
 /// Explicit long runs that cross the 16-bit index wrap, for every small size and mode.
@@ -1588,9 +1668,10 @@ pub fn long_cases(rounds_target: u32, sizes: &[u8]) -> Vec<QCase> {
                 let batch = n.min(3) as u8;
                 let bufs = if m & 1 != 0 { 3 } else { 1 + (log2 % 2) };
                 out.push(QCase {
-                    cfg: QCfg { log2, indirect: m & 1 != 0, event_idx: m & 2 != 0, ap: m & 4 != 0, legacy },
+                    cfg: QCfg { log2, indirect: m & 1 != 0, event_idx: m & 2 != 0, ap: m & 4 != 0, legacy, zero_share: if m == 5 { 2 } else { 0 } },
                     ops: vec![],
                     long: Some(Long { rounds: rounds_target, batch, bufs, rot: m + 1 }),
+                    huge: 0,
                 });
             }
         }
